@@ -383,6 +383,7 @@ class SutHang(Exception):
 
 
 CALL_LIMIT_S = 30.0
+WARNINGS_AS_ERRORS = [False]
 
 
 _HANG_SEEN = [False]
@@ -415,7 +416,8 @@ def call(fn, recorder=None):
         signal.setitimer(signal.ITIMER_REAL, CALL_LIMIT_S if not _HANG_SEEN[0] else 3.0)
     try:
         with warnings.catch_warnings():
-            warnings.simplefilter("ignore")
+            # (a user may run with warnings turned into errors: then the library's own warnings are exceptions raised inside it)
+            warnings.simplefilter("error" if WARNINGS_AS_ERRORS[0] else "ignore")
             out.value = fn()
     except SutHang as e:
         out.ok = False
